@@ -162,17 +162,21 @@ async def next_step_settled(sim: SimRunner, world: World) -> bool:
             return True
         else:
             await_time = sim.next_steps[0] if sim.next_steps else TieredTime(world.until) + sim.from_world_time
-            _, pending = await asyncio.wait(
-                [
-                    asyncio.create_task(sim.progress.has_reached(await_time)),
-                    asyncio.create_task(sim.newer_step.wait()),
-                ],
-                return_when="FIRST_COMPLETED",
-                timeout=world.rt_factor,
-            )
+            waiters = [
+                asyncio.create_task(sim.progress.has_reached(await_time)),
+                asyncio.create_task(sim.newer_step.wait()),
+            ]
+            try:
+                await asyncio.wait(
+                    waiters,
+                    return_when="FIRST_COMPLETED",
+                    timeout=world.rt_factor,
+                )
+            finally:
+                # Also when this simulator's task is cancelled
+                for task in waiters:
+                    task.cancel()
             sim.newer_step.clear()
-            for task in pending:
-                task.cancel()
             if world.rt_factor:
                 advance_progress(sim, world)
     return False
